@@ -49,6 +49,8 @@ def solver_part(tier):
     s2 = z3.Solver()
     s2.add(k >= 0, k < len(kinds), member(las["lookahead_0"]["skip"]))
     pmodel._check(s2, "drain invariant twin (skip sets non-empty)", res, expect="sat")
+    from kit import berp
+    pmodel.q_lookaheads(las, res, berp.build())
     herr = []
     for la, d in las.items():
         if d["requeue"] != "extend":
@@ -67,6 +69,8 @@ def conditions(tier):
         cs = _p.pdrv_conditions(select="tags", k_tags=2, k_tags_rest=1, tag_stride=5, stop_too=True)
     else:
         cs = _p.pdrv_conditions(select="tags", k_tags=3, stop_too=True) + _p.pdrv_conditions(k_all=2, k_tags=0, stop_too=False)
+    if tier == "quick":
+        cs += [c for c in _p.pdrv_conditions(k_all=1, k_tags=0, stop_too=False)]
     cs += _p.reuse_conditions(k=1, stride=6 if tier == "quick" else 1)
     cs.append(Cond("harness.c18", "format_token", T=300))
     cs.append(Cond("harness.c18", "scanner_numbers_lines", T=300))
